@@ -205,6 +205,11 @@ func (ex *Exec) step(st *State, fc *FnCtx, in ssa.Instruction, pred *ssa.BasicBl
 		}
 		st.env[x] = &Closure{Fn: fn, Bindings: bs}
 	case *ssa.Phi:
+		if v, ok := st.phiOverride[x]; ok {
+			st.env[x] = v
+			delete(st.phiOverride, x)
+			return false
+		}
 		for i, p := range in.Block().Preds {
 			if p == pred {
 				st.env[x] = ex.val(st, x.Edges[i])
